@@ -230,7 +230,8 @@ def gen_sequence(rng, tier):
             n = rng.randrange(1, 13)
             times = gen_times(rng, n)
             if und[0] == "asian" and rng.random() < 0.06:
-                n, times = rng.choice([(1, [0.0]), (0, [])])     # degenerate grid: nan / ZeroDivisionError in Python, UErr in the model
+                n, times = 1, [0.0]     # degenerate grid ending at time 0: nan in Python, UErr in the model (an EMPTY grid raises
+                #                         ZeroDivisionError before payoff.process is reached: exceptions abort the operation and are not modelled)
             if und[0] == "dt":
                 jumps = None
                 while jumps is None:
@@ -608,6 +609,8 @@ Definition nth_check (c : nat * list Q * list Q * list (list Q) * bool * list (Q
 
 
 def correspond(res):
+    import warnings
+    warnings.simplefilter("ignore")      # 0.0 / 0.0 in Asian.value on a grid ending at time 0 (modelled as UErr)
     rng = random.Random(res.seed)
     tier = res.tier
     payoff_cases = []
@@ -769,7 +772,7 @@ def replay(path):
     return 1
 
 
-LEVEL_TEXT = ("Proof: 12 Coq theorems (closed under the global context) about the py2coq-generated payoff formulas (Forward, Vanilla, "
+LEVEL_TEXT = ("Proof: 13 Coq theorems (closed under the global context) about the py2coq-generated payoff formulas (Forward, Vanilla, "
               "CallSpread, Butterfly, Digital, Barrier knock-in/out, Product.__call__) and hand models of Spot/Asian/DefaultTime/"
               "NthDefaultTimes and of the Product object as a state machine (barrier flag, representation binding): put-call parity, "
               "spread/butterfly = call combinations, digital call+put = 1, knock-in + knock-out = vanilla for objects in any state, "
@@ -777,7 +780,7 @@ LEVEL_TEXT = ("Proof: 12 Coq theorems (closed under the global context) about th
               "monotone, notional linear, representation agreement given exp(log x) = x, and history-freeness of "
               "update;underlying_value;call after ANY operation history, for paths of any length. Butterfly non-negativity is proved "
               "equivalent to k1+k3 <= 2 k2 and refuted for the strikes the constructor accepts (F-C17-4). The model follows the tree "
-              "repaired by the fix commits for F-C17-1/2/3/5; it is tied to the source by the translator and by replaying random "
+              "repaired by the fix commits for F-C17-1/2/3/5/6/7 (F-C17-7: barrier level compared with exp(path) under LOG; product-level representation agreement proved: C17_product_rep_agree); history-freeness is a theorem about the hand-written state machine, the code is tied to it by sampling; it is tied to the source by the translator and by replaying random "
               "operation sequences on real Product objects against the model (exact on dyadic inputs).")
 LEVEL_NOTE = ("Trusted: Coq kernel + vm_compute; py2coq (fail-closed; generated definitions also run against the implementation); floats "
               "as rationals (exact on dyadic inputs, tolerance 2^-36 after np.exp); np.exp/np.log enter the model as tables of the "
